@@ -9,16 +9,14 @@ def spaces (n : Nat) : Text := List.replicate n SP
 section
 variable {α : Type} [CostNum α]
 
-/-- one row; `none` = `column_width - display_width(column_line)` underflows (pinned tree) -/
+/-- one row; a line wider than the column protrudes (`saturating_sub`) -/
 def columnsRow (cw : Char → Nat) (wrapped : List Text) (columns columnWidth linesPerColumn : Nat)
     (middle lastPad : Text) (lineNo : Nat) : Nat → Nat → Option Text
   | 0, _ => some []
   | fuel + 1, columnNo =>
     let cell : Option Text :=
       match wrapped[lineNo + columnNo * linesPerColumn]? with
-      | some l =>
-        if columnWidth < displayWidth cw l then none
-        else some (l ++ spaces (columnWidth - displayWidth cw l))
+      | some l => some (l ++ spaces (columnWidth - displayWidth cw l))
       | none => some (spaces columnWidth)
     let sep := if columnNo = columns - 1 then lastPad else middle
     match cell, columnsRow cw wrapped columns columnWidth linesPerColumn middle lastPad lineNo fuel (columnNo + 1) with
